@@ -285,9 +285,11 @@ func (app *App) addPrefixToRoute(prefix string, route *Route) *Route {
 
 	route.Path = prefixedPath
 	route.path = RemoveEscapeChar(prettyPath)
+	parsedRaw := parseRoute(prefixedPath, app.customConstraints...)
 	route.routeParser = parseRoute(prettyPath, app.customConstraints...)
+	route.routeParser.adoptConstraintData(&parsedRaw)
 	// the parameter names are those of the whole path, as for a route registered under the prefix
-	route.Params = parseRoute(prefixedPath, app.customConstraints...).params
+	route.Params = parsedRaw.params
 	route.root = false
 	// as in register: the wildcard shortcut applies exactly when the whole path is "/*"
 	route.star = prettyPath == "/*"
@@ -349,6 +351,7 @@ func (app *App) register(methods []string, pathRaw string, group *Group, handler
 
 	parsedRaw := parseRoute(pathRaw, app.customConstraints...)
 	parsedPretty := parseRoute(pathPretty, app.customConstraints...)
+	parsedPretty.adoptConstraintData(&parsedRaw)
 
 	isMount := group != nil && group.app != app
 
